@@ -2252,14 +2252,14 @@ impl Scenario for C20 {
         vec![
             "shape invariants are the dimensional relations that every value built through the public constructors satisfies (DESIGN 4 C20); Ccy case/length after load, >= 2 curve nodes and sorted node keys are NOT demanded".into(),
             "damaged text is always valid UTF-8 (invalid UTF-8 cannot reach a &str API)".into(),
-            "calendar queries are only issued against calendars with at least one working weekday; month offsets land in 1971-2199".into(),
+            "calendar queries are only issued against calendars with at least one working weekday; month offsets LAND in 1970-2200 (the start date is any datetime chrono can hold); a user implementation of the public DateRoll trait that delegates the three required methods and overrides is_bus_day consistently (is_non_bus_day stays its negation) counts as a calendar".into(),
             "by-contract refusals (Dual with Dual2 on Number, NullInterpolator look-ups) are not exercised".into(),
             "constructors, date arithmetic and csolve are pure functions: for them this check is seeded input generation plus the no-unwind monitor, not fault injection".into(),
         ]
     }
     fn components() -> serde_json::Value {
         serde_json::json!({
-            "real": ["serde_json deserialisation of every rateslib type incl. the tagged container (verif-hooks) and the rebuild-on-load data models", "Dual/Dual2/Ccy/FXPair/FXRate/FXRates/NamedCal constructors", "DateRoll::{add_days, add_bus_days, lag, add_months, roll} on Cal/UnionCal/NamedCal", "PPSpline::csolve"],
+            "real": ["serde_json deserialisation of every rateslib type incl. the tagged container (verif-hooks) and the rebuild-on-load data models", "Dual/Dual2/Ccy/FXPair/FXRate/FXRates/NamedCal constructors", "DateRoll::{add_days, add_bus_days, lag, add_months, roll} on Cal/UnionCal/NamedCal and on a user implementation of the trait (provided methods are the library's)", "PPSpline::csolve"],
             "stub": ["the store is an in-memory map of byte strings with an older and a newer version per object; faults are applied to the bytes it hands back", "Python layer not executed (embedded interpreter only so that PyErr can be formatted)"],
             "model": ["shape invariants per type; no-unwind monitor (catch_unwind + panic hook) on every call; worker-process death = abort"]
         })
